@@ -1,7 +1,7 @@
 (** C01 -- property file.  Contains only: the full statement, the proved statement (closed by [exact]),
     the instantiation obligations on the facts regenerated from /repo, a non-vacuity example,
     and Print Assumptions. *)
-From SF Require Import Model.Chain Model.ChainProof Model.ChainOrder Model.ChainExt Model.ChainExtProof Model.ChainCheckX.
+From SF Require Import Model.Chain Model.ChainProof Model.ChainOrder Model.ChainG Model.ChainExt Model.ChainExtProof Model.ChainStages Model.ChainCheckX.
 From Coq Require Import Permutation Sorting.Sorted.
 From Gen Require Import C01Facts.
 Open Scope Z_scope.
@@ -61,17 +61,26 @@ Theorem C01_dropna_emulation : forall cs r how thresh chk,
 Proof. exact dropna_emulation_ok. Qed.
 Print Assumptions C01_dropna_emulation.
 
-(** fillna / replace write a CASE projection: their decorator must claim at least SELECT (instantiation
-    obligation on the generated decorator table; it fails for Operation.FROM, the defect repaired in /repo) *)
+(** fillna / replace write a CASE projection and toDF re-aliases the open SELECT: their decorators must claim at
+    least SELECT; dropna may carry any kind the clause-ordering table knows.  One instantiation obligation on the
+    generated decorator table; it fails for fillna/replace tagged Operation.FROM and for an undecorated toDF, the
+    defects repaired in /repo. *)
 Lemma gen_fillna_kind : deco_of decorator_table "fillna" = Some SELECT /\ deco_of decorator_table "replace" = Some SELECT.
 Proof. split; vm_compute; reflexivity. Qed.
 Lemma gen_composite_ok : composite_ok gen_cfg SELECT = true.
 Proof. vm_compute. reflexivity. Qed.
+Lemma gen_deco_ok : deco_ok gen_cfg (deco_of decorator_table) = true.
+Proof. vm_compute. reflexivity. Qed.
+
+(** the invariant of the wide theorems is [GInvR] (ChainG): [Chain.Inv] weakened so that the open block may read a
+    source with hidden columns (what dropna leaves behind); every state with the original invariant has it *)
+Lemma C01_inv_is_ginv : forall d ics, InvR gen_cfg d ics -> GInvR gen_cfg d ics.
+Proof. exact (invr_ginvr gen_cfg). Qed.
 
 Theorem C01_fillna : forall d ics input kvs,
-  cols input = ics -> wf_frame input -> InvR gen_cfg d ics ->
+  cols input = ics -> wf_frame input -> GInvR gen_cfg d ics ->
   exists d', step_x gen_cfg (deco_of decorator_table) d (XFillna kvs) = Some d' /\
-             eval_df d' input = spec_x (XFillna kvs) (eval_df d input) /\ InvR gen_cfg d' ics.
+             eval_df d' input = spec_x (XFillna kvs) (eval_df d input) /\ GInvR gen_cfg d' ics.
 Proof.
   intros. exact (fillna_correct gen_cfg gen_cfg_ok gen_limit_ok (deco_of decorator_table) SELECT d ics input kvs
                    (proj1 gen_fillna_kind) gen_composite_ok H H0 H1).
@@ -79,16 +88,77 @@ Qed.
 Print Assumptions C01_fillna.
 
 Theorem C01_replace : forall d ics input tgt ps,
-  cols input = ics -> wf_frame input -> InvR gen_cfg d ics ->
+  cols input = ics -> wf_frame input -> GInvR gen_cfg d ics ->
   exists d', step_x gen_cfg (deco_of decorator_table) d (XReplace tgt ps) = Some d' /\
-             eval_df d' input = spec_x (XReplace tgt ps) (eval_df d input) /\ InvR gen_cfg d' ics.
+             eval_df d' input = spec_x (XReplace tgt ps) (eval_df d input) /\ GInvR gen_cfg d' ics.
 Proof.
   intros. exact (replace_correct gen_cfg gen_cfg_ok gen_limit_ok (deco_of decorator_table) SELECT d ics input tgt ps
                    (proj2 gen_fillna_kind) gen_composite_ok H H0 H1).
 Qed.
 Print Assumptions C01_replace.
 
-(** every list over the widened alphabet (core operations, withColumn/withColumnRenamed/drop, fillna, replace) *)
+(** toDF(names) at any position of a chain: same rows, new names (as many distinct names as there are columns) *)
+Lemma gen_toDF_kind : deco_of decorator_table "toDF" = Some SELECT.
+Proof. vm_compute. reflexivity. Qed.
+Theorem C01_toDF : forall d ics input ns,
+  List.length ns = List.length (cur_cols d) -> NoDup ns ->
+  cols input = ics -> wf_frame input -> GInvR gen_cfg d ics ->
+  exists d', step_x gen_cfg (deco_of decorator_table) d (XToDF ns) = Some d' /\
+             eval_df d' input = spec_x (XToDF ns) (eval_df d input) /\ GInvR gen_cfg d' ics.
+Proof.
+  intros. exact (toDF_correct gen_cfg (deco_of decorator_table) SELECT d ics input ns
+                   gen_toDF_kind gen_composite_ok H H0 H1 H2 H3).
+Qed.
+Print Assumptions C01_toDF.
+
+(** dropna(how, thresh, subset) at any position of a chain: the three blocks it compiles to (append num_nulls;
+    WHERE num_nulls < k over a fresh block; SELECT the original columns) evaluate to PySpark's dropna, provided no
+    current column is itself called num_nulls, the subset names current columns, and the method's own guard
+    (minimum number of NULLs <= number of checked columns, i.e. thresh >= 1) lets the call through *)
+Lemma gen_dropna_kind : deco_of decorator_table "dropna" = Some FROM.
+Proof. vm_compute. reflexivity. Qed.
+Lemma gen_dropna_kind_ok : kind_reach_ok gen_cfg FROM = true.
+Proof. vm_compute. reflexivity. Qed.
+Theorem C01_dropna : forall d ics input how thresh subset,
+  ~ In "num_nulls"%string (cur_cols d) -> incl subset (cur_cols d) ->
+  dropna_guard how thresh (match subset with [] => cur_cols d | _ => subset end) = true ->
+  cols input = ics -> wf_frame input -> GInvR gen_cfg d ics ->
+  exists d', step_x gen_cfg (deco_of decorator_table) d (XDropna how thresh subset) = Some d' /\
+             eval_df d' input = spec_x (XDropna how thresh subset) (eval_df d input) /\ GInvR gen_cfg d' ics.
+Proof.
+  intros. exact (dropna_correct gen_cfg gen_cfg_ok gen_limit_ok (deco_of decorator_table) FROM d ics input how thresh subset
+                   gen_dropna_kind gen_dropna_kind_ok H H0 H1 H2 H3 H4).
+Qed.
+Print Assumptions C01_dropna.
+
+(** the state dropna leaves behind still reads the helper column: a where/select written into that block must not
+    mention it ([hf_ok], part of [xs_ok]); the condition is vacuous wherever the original invariant holds *)
+Theorem C01_hidden_condition_vacuous : forall d ics o, InvR gen_cfg d ics -> hf_ok gen_cfg d ics o = true.
+Proof. exact (hf_ok_clean gen_cfg gen_cfg_ok). Qed.
+Print Assumptions C01_hidden_condition_vacuous.
+
+(** the full statement over the wide alphabet is FALSE of the faithful model: dropna on a frame that has a column
+    called num_nulls filters on the user's column (known finding C01/dropna-on-frame-with-column-named-num_nulls;
+    the implementation returns the model's rows, PySpark the spec's) *)
+Definition C01_full_wide : Prop :=
+  forall xs input, wf_frame input -> NoDup (cols input) ->
+    forall d', run_x gen_cfg (deco_of decorator_table) (init_df (cols input)) xs = Some d' ->
+               eval_df d' input = spec_xrun xs input.
+Theorem C01_refuted_dropna_helper_column : ~ C01_full_wide.
+Proof.
+  intro H.
+  pose (input := mkFrame ["num_nulls"; "b"]%string [[VInt 1; VInt 2]; [VNull; VInt 3]; [VInt 0; VNull]]).
+  assert (Hwf : wf_frame input) by (intros r [<-|[<-|[<-|[]]]]; reflexivity).
+  assert (Hnd : NoDup (cols input)) by (apply nodupb_sound; reflexivity).
+  destruct (run_x gen_cfg (deco_of decorator_table) (init_df (cols input)) [XDropna true None []]) as [d'|] eqn:E;
+    [|vm_compute in E; discriminate].
+  specialize (H [XDropna true None []] input Hwf Hnd d' E).
+  vm_compute in E. inversion E; subst d'. vm_compute in H. discriminate.
+Qed.
+Print Assumptions C01_refuted_dropna_helper_column.
+
+(** every list over the widened alphabet: core operations, withColumn/withColumnRenamed/drop, fillna, replace,
+    toDF and dropna, in any order, on the decidable domain [xs_ok] *)
 Theorem C01_partial_wide : forall xs input,
   wf_frame input -> NoDup (cols input) ->
   xs_ok gen_cfg (deco_of decorator_table) (init_df (cols input)) (cols input) xs = true ->
@@ -96,10 +166,9 @@ Theorem C01_partial_wide : forall xs input,
              eval_df d' input = spec_xrun xs input.
 Proof.
   intros xs input Hwf Hnd Hok.
-  destruct (xchain_correct gen_cfg gen_cfg_ok gen_limit_ok (deco_of decorator_table) SELECT SELECT xs
-              (init_df (cols input)) (cols input) input
-              (proj1 gen_fillna_kind) gen_composite_ok (proj2 gen_fillna_kind) gen_composite_ok
-              eq_refl Hwf (init_inv gen_cfg (cols input) Hnd) Hok) as (d' & Hr & He).
+  destruct (xchain_correct gen_cfg gen_cfg_ok gen_limit_ok (deco_of decorator_table) xs
+              (init_df (cols input)) (cols input) input gen_deco_ok
+              eq_refl Hwf (invr_ginvr gen_cfg _ _ (init_inv gen_cfg (cols input) Hnd)) Hok) as (d' & Hr & He).
   exists d'. split; [exact Hr|]. rewrite He. rewrite eval_init; auto.
 Qed.
 Print Assumptions C01_partial_wide.
@@ -109,6 +178,128 @@ Example C01_wide_domain_nonempty :
     [XFillna [("a"%string, VInt 0)]; XCore (UOp (OWhere (EBin Eq (ECol "a") (ELit (VInt 0)))));
      XReplace ["b"%string] [(VInt 1, VInt 7)]; XCore (UWithColumn "c" (EBin Add (ECol "a") (ECol "b")));
      XCore (UOp (OOrderBy [mkKey (ECol "c") false true])); XCore (UDrop ["a"%string]); XCore (UOp (OLimit 2))] = true.
+Proof. vm_compute. reflexivity. Qed.
+
+(** chains with dropna and toDF at several positions, including dropna directly followed by where / fillna /
+    dropna / distinct (all written into the block that still reads num_nulls) *)
+Example C01_wide_domain_dropna_toDF :
+  xs_ok gen_cfg (deco_of decorator_table) (init_df ["a"; "b"; "s"]%string) ["a"; "b"; "s"]%string
+    [XCore (UOp (OWhere (EBin Gt (ECol "b") (ELit (VInt 0)))));
+     XDropna true None ["a"; "s"]%string;
+     XToDF ["x"; "y"; "z"]%string;
+     XCore (UOp (OOrderBy [mkKey (ECol "y") true false; mkKey (ECol "x") false true]));
+     XCore (UOp (OLimit 3));
+     XDropna false (Some 2) [];
+     XCore (UOp (OWhere (EIsNull (ECol "z"))));
+     XFillna [("z"%string, VStr "q")];
+     XDropna false None ["x"%string];
+     XDropna true None [];
+     XCore (UOp ODistinct);
+     XToDF ["num_nulls"; "b"; "c"]%string;
+     XCore (URename "num_nulls" "a")] = true.
+Proof. vm_compute. reflexivity. Qed.
+
+(** outside the domain: dropna on a frame that has a column called num_nulls; mentioning the helper column in the
+    where that directly follows a dropna *)
+Example C01_wide_domain_excludes :
+  xs_ok gen_cfg (deco_of decorator_table) (init_df ["num_nulls"; "b"]%string) ["num_nulls"; "b"]%string
+    [XDropna true None []] = false /\
+  xs_ok gen_cfg (deco_of decorator_table) (init_df ["a"; "b"]%string) ["a"; "b"]%string
+    [XDropna true None []; XCore (UOp (OWhere (EBin Eq (ECol "num_nulls") (ELit (VInt 0)))))] = false.
+Proof. split; vm_compute; reflexivity. Qed.
+
+(** * The whole alphabet: + groupBy().agg() as a step, unpivot, dropDuplicates(subset)
+    The compiled form is a list of stages (SELECT blocks, GROUP BY, UNION ALL, ROW_NUMBER) + an open C01 state. *)
+Definition gen_g : gcfg := mkGcfg wrap_needed_group init_wraps_group group_agg_kind.
+
+(** instantiation obligations on the generated facts: group_operation's wrapper and GroupedData.agg's decorator
+    leave a block GROUP BY can be written into (wrapped, or tagged below SELECT) and tag the result >= SELECT's
+    rank in the table; unpivot / dropDuplicates carry a kind the clause-ordering table knows *)
+Lemma gen_deco_ok_y : deco_ok_y gen_cfg gen_g (deco_of decorator_table) = true.
+Proof. vm_compute. reflexivity. Qed.
+Lemma gen_group_wrapper_is_df_wrapper :
+  forallb (fun l => forallb (fun n => Bool.eqb (wrap_needed_group l n) (wrap_needed_df l n)) all_opk) all_opk = true
+  /\ init_wraps_group = init_wraps_df.
+Proof. split; vm_compute; reflexivity. Qed.
+
+(** the GROUP BY stage (distinct keys in first-occurrence order, members by filter, NULL an ordinary key, one group
+    when there is no key) is PySpark's groupBy(keys).agg(aggs) on every frame *)
+Theorem C01_agg_stage : forall keys aggs F, eval_group [] keys aggs F = spec_agg keys aggs F.
+Proof. exact eval_group_spec. Qed.
+Print Assumptions C01_agg_stage.
+
+(** the UNION ALL of one projection per value column is unpivot's result branch after branch: same columns as
+    PySpark's and a permutation of its (row-major) rows *)
+Theorem C01_unpivot_stage : forall ids vals var vl F, vals <> [] ->
+  eval_union (unpivot_parts ids vals var vl) F = unpivot_cm ids vals var vl F /\
+  cols (unpivot_cm ids vals var vl F) = cols (spec_x (XUnpivot ids vals var vl) F) /\
+  Permutation (rows (unpivot_cm ids vals var vl F)) (rows (spec_x (XUnpivot ids vals var vl) F)).
+Proof. intros. split; [apply eval_union_unpivot; assumption | apply unpivot_perm]. Qed.
+Print Assumptions C01_unpivot_stage.
+
+(** ROW_NUMBER() OVER (PARTITION BY subset ORDER BY subset) = 1: whichever row of each partition the engine numbers
+    1, the rows kept are taken from the input, have pairwise distinct keys, and every key of the input is kept *)
+Theorem C01_dropDuplicates_any_pick : forall kf R ns, numbering_ok kf R ns ->
+  (forall r, In r (picked R ns) -> In r R) /\ NoDup (map kf (picked R ns)) /\
+  (forall r, In r R -> In (kf r) (map kf (picked R ns))).
+Proof. exact window_pick_valid. Qed.
+Print Assumptions C01_dropDuplicates_any_pick.
+(** ... and the numbering the model uses (input order within a partition) is one such numbering *)
+Theorem C01_row_number_representative : forall kf R, numbering_ok kf R (rownums kf [] R).
+Proof. exact rownums_numbering_ok. Qed.
+Print Assumptions C01_row_number_representative.
+Example C01_numbering_ok_other_pick :
+  numbering_ok (fun r => firstn 1 r) [[VInt 1; VInt 10]; [VInt 1; VInt 20]; [VNull; VInt 30]] [2; 1; 1].
+Proof. split; [reflexivity|]. intros k [<-|[<-|[<-|[]]]]; reflexivity. Qed.
+
+(** every list over ALL operation kinds of the property, every input frame, on the decidable domain [ys_ok]:
+    the compiled stages evaluate to the sequential reference [ref_xrun] (= PySpark's meaning step by step, with
+    first-occurrence representatives for group order and dropDuplicates' survivor and the branch-major
+    representative of unpivot, see [ref_x_perm]) *)
+Theorem C01_partial_all : forall xs input,
+  wf_frame input -> NoDup (cols input) ->
+  ys_ok gen_cfg gen_g (deco_of decorator_table) (init_y (cols input)) xs = true ->
+  exists Y, run_y gen_cfg gen_g (deco_of decorator_table) (init_y (cols input)) xs = Some Y /\
+            eval_stages (all_stages Y) input = ref_xrun xs input.
+Proof.
+  intros xs input Hwf Hnd Hok.
+  destruct (ychain_correct gen_cfg gen_cfg_ok gen_limit_ok gen_g (deco_of decorator_table) xs
+              (init_y (cols input)) input gen_deco_ok_y (init_yinv gen_cfg input Hwf Hnd) Hok) as (Y & Hr & He).
+  exists Y. split; [exact Hr|]. rewrite all_stages_eval, He.
+  unfold eval_y, init_y. cbn [y_d y_pre eval_stages fold_left]. rewrite eval_init; auto.
+Qed.
+Print Assumptions C01_partial_all.
+
+Theorem C01_reference_is_spark_up_to_row_order : forall x fr,
+  cols (ref_x x fr) = cols (spec_x x fr) /\ Permutation (rows (ref_x x fr)) (rows (spec_x x fr)).
+Proof. exact ref_x_perm. Qed.
+Print Assumptions C01_reference_is_spark_up_to_row_order.
+
+Example C01_all_domain_nonempty :
+  ys_ok gen_cfg gen_g (deco_of decorator_table) (init_y ["a"; "b"; "s"]%string)
+    [XCore (UOp (OWhere (EBin Gt (ECol "b") (ELit (VInt 0)))));
+     XDropna true None ["a"; "s"]%string;
+     XDropDup ["s"%string];
+     XToDF ["x"; "y"; "z"]%string;
+     XUnpivot ["z"%string] ["x"; "y"]%string "var"%string "val"%string;
+     XCore (UOp (OWhere (ENot (EIsNull (ECol "val")))));
+     XAgg ["z"; "var"]%string [((ASum, "val"%string), "g0"%string); ((ACountStar, "*"%string), "g1"%string)];
+     XCore (UOp (OOrderBy [mkKey (ECol "g0") true false; mkKey (ECol "z") false true]));
+     XCore (UOp (OLimit 3));
+     XAgg [] [((AMax, "g1"%string), "m"%string)];
+     XFillna [("m"%string, VInt 0)]] = true.
+Proof. vm_compute. reflexivity. Qed.
+
+(** and what the example program computes on a small frame with NULLs and duplicates *)
+Example C01_all_example_runs :
+  match run_y gen_cfg gen_g (deco_of decorator_table) (init_y ["a"; "b"; "s"]%string)
+          [XDropDup ["s"%string]; XUnpivot ["s"%string] ["a"; "b"]%string "var"%string "val"%string;
+           XAgg ["var"%string] [((ACount, "val"%string), "n"%string)]] with
+  | Some Y => rows (eval_stages (all_stages Y)
+                      (mkFrame ["a"; "b"; "s"]%string
+                               [[VInt 1; VInt 2; VStr "x"]; [VNull; VInt 3; VStr "x"]; [VInt 1; VNull; VNull]]))
+  | None => []
+  end = [[VStr "a"; VInt 2]; [VStr "b"; VInt 1]].
 Proof. vm_compute. reflexivity. Qed.
 
 (** the domain is inhabited by a program that exercises every wrap decision *)
